@@ -41,6 +41,14 @@ def texts(tier, seed):
 
 
 def run(eng, tier, seed):
+    import contextlib
+    import io
+    # the library prints diagnostics for malformed input; they are not part of the check's output
+    with contextlib.redirect_stdout(io.StringIO()), contextlib.redirect_stderr(io.StringIO()):
+        return _run(eng, tier, seed)
+
+
+def _run(eng, tier, seed):
     import importlib
     parser = importlib.import_module('xdoctest.parser')
     core = importlib.import_module('xdoctest.core')
